@@ -51,8 +51,10 @@ def initial_files(R, nfiles):
 
 
 def parse_blist(b):
+    # entries are printed back to back as "%2i %c %s %c"; paths used by the workloads are f<N>
+    b = re.sub(rb'\x1b\[[0-9;]*[A-Za-z]|\r', b'', b)
     return [(int(m.group(1)), m.group(2).decode(), m.group(3).decode(), m.group(4) == b'*')
-            for m in re.finditer(rb' ?(\d+) (.) (\S+) (.)', b)]
+            for m in re.finditer(rb'(\d+) ([%#^ ]) (f\d+) ([* ])', b)]
 
 
 def probe(vi, files, prefix, nfiles, attempt):
